@@ -49,7 +49,8 @@ THEOREMS = [
     # among them), the families of the cells the library's constructors build, the family lists of the settings
     'C04.identifyFamily_congr', 'C04.identifyFamily_c_irrelevant', 'C04.family_orthorhombic', 'C04.family_monoclinic',
     'C04.family_triclinic', 'C04.family_triclinic_exact', 'C04.family_hexagonal', 'C04.familyAllowed_orthorhombic',
-    'C04.familyAllowed_monoclinic', 'C04.familyAllowed_hexagonal', 'C04.familyAllowed_none',
+    'C04.familyAllowed_monoclinic', 'C04.familyAllowed_hexagonal', 'C04.familyAllowed_none', 'C04.settingFamilies_some_iff',
+    'C04.familyAllowed_orthorhombic_iff', 'C04.familyAllowed_monoclinic_iff', 'C04.familyAllowed_hexagonal_iff',
     'C04.checkSettingBasis_member', 'C04.checkSettingBasis_refuses_family', 'C04.checkSites_eq_by',
     # the lattice-site test at the caller's tolerance: exact sites pass any tolerance, monotone, periodic; the setting
     # the conversion works with ('t' -> t2 for a cell passing the t2 test at the caller's tolerances)
